@@ -464,6 +464,8 @@ func (rl *realLog) compare(d dcase, cls dmgT, exp *obsT, ro *realObs, searchAllo
 	}
 	cause := "damage-" + d.Kind
 	switch {
+	case rl.misaligned() && hasMidRotation(rl.Hist):
+		cause = "rotation-between-group-writes" // = keyBetweenGroupWrites
 	case rl.misaligned():
 		cause = "rotation-inside-record"
 	case d.Kind == "cut" && cls.C%cellsPerRec != 0:
